@@ -494,3 +494,20 @@ theorem isSuper_sound (cfg : Cfg) (haa : cfg.aa ≠ .legacy) (hf : cfg.f64 = fal
         exact ⟨ih _ _ h.1 i hr, ih _ _ h.2 i hr⟩
 
 end ErgVerif
+
+namespace ErgVerif
+
+theorem nthPerm_perm : ∀ (f k : Nat) (l : List Pred), (nthPerm f k l).Perm l
+  | 0, _, l => by simp [nthPerm]
+  | f+1, k, l => by
+    unfold nthPerm
+    split
+    · exact List.Perm.refl _
+    · rename_i x hx
+      have hmem : x ∈ l := List.mem_of_getElem? hx
+      exact ((nthPerm_perm f (k / l.length) (l.erase x)).cons x).trans (List.perm_cons_erase hmem).symm
+
+/-- every order the drivers enumerate is a legitimate iteration order -/
+theorem ordK_ok (k : Nat) : OrdOK (ordK k) := fun ps _ => (nthPerm_perm ps.length k ps).mem_iff
+
+end ErgVerif
